@@ -35,7 +35,7 @@ impl Deserialize for BootstrapWitnesses {
                 cbor_event::Len::Len(n) => arr.len() < n as usize,
                 cbor_event::Len::Indefinite => true,
             } {
-                if is_break_tag(raw, "BootstrapWitnesses")? {
+                if is_break_tag(raw, &len, "BootstrapWitnesses")? {
                     break;
                 }
                 arr.push(BootstrapWitness::deserialize(raw)?);
